@@ -6,7 +6,7 @@
 # usage: mkscratch_util.sh <dir>     (dir must be outside /repo and /verif)
 set -e
 d=$1; mkdir -p $d/util
-for f in /repo/core/util/*.go; do
+for f in ${REPO:-/repo}/core/util/*.go; do
   case $(basename $f) in *_test.go|mpt_pnodedb*.go) continue;; esac
   cp $f $d/util/
 done
@@ -121,12 +121,12 @@ import "bytes"
 
 func bytesReader(b []byte) *bytes.Reader { return bytes.NewReader(b) }
 EOS
-cat > $d/go.mod <<'EOS'
+cat > $d/go.mod <<EOS
 module scratch
 go 1.21
 require github.com/0chain/common v0.0.0
-replace github.com/0chain/common => /repo
+replace github.com/0chain/common => ${REPO:-/repo}
 replace github.com/tinylib/msgp => github.com/0chain/msgp v1.1.62
 EOS
-cp /repo/go.sum $d/
+cp ${REPO:-/repo}/go.sum $d/
 echo "scratch util module in $d (package scratch/util)"
